@@ -3,6 +3,7 @@ mod algos;
 mod enc;
 mod ix;
 mod mg;
+mod sg;
 mod uf;
 use common::*;
 
@@ -51,6 +52,15 @@ fn main() {
             let mut o = algos::Out { log: &mut log, matrix: Default::default() };
             let recs = read_ndjson(&args.str("in", ""));
             algos::replay(&args.str("prop", "C09"), seed, &recs, &mut o);
+        }
+        "sg-random" => {
+            let mut log = Log::to_path(&out);
+            let (s, l) = (args.num("segments", 30) as usize, args.num("len", 80) as usize);
+            match args.str("prop", "C05").as_str() {
+                "C03" => sg::gen_c03(seed, s, l, &mut log),
+                "C04" => sg::gen_c04(seed, s, l, &mut log),
+                _ => sg::gen_c05(seed, s, l, &mut log),
+            }
         }
         "mg-scenarios" => {
             let mut log = Log::to_path(&out);
